@@ -386,10 +386,84 @@ def bend_goals(case, out, e_out):
     return gs, skipped
 
 
+def uniform_field_oracle(spec, E0, parts):
+    """The body of the Bmad-X bend (fringe_at='neither', no tilt) against the exact motion in a uniform field, computed independently of
+    the code's formulas in 40-digit arithmetic: in the bending plane the orbit is the circle of radius px_norm/g through the entrance point,
+    tangent to the entrance direction; the exit point is its intersection with the exit face, the exit direction the tangent there; y advances
+    by py/px_norm times the arc length, z by beta*L/beta0 - (1+pz)/px_norm times the arc length."""
+    import copy
+    import mpmath as mp
+    mp.mp.dps = 40
+    q = copy.deepcopy(spec)
+    q["kw"].update({"fringe_at": "neither", "tilt": 0.0})
+    out = make(q).track(beam(parts, E0)).particles.tolist()
+    m, L, th = mp.mpf(m_eV()), mp.mpf(q["kw"]["length"]), mp.mpf(q["kw"]["angle"])
+    g = th / L
+    E0d = mp.mpf(E0)
+    p0 = mp.sqrt(E0d * E0d - m * m)
+    for i, p in enumerate(parts):
+        x, px, y, py, tau, d = [mp.mpf(v) for v in p[:6]]
+        en = E0d + d * p0
+        pc = mp.sqrt(en * en - m * m)
+        P = pc / p0
+        beta, beta0 = pc / en, p0 / E0d
+        n = mp.sqrt(P * P - py * py)
+        r = n / g
+        s1 = px / n
+        c1 = mp.sqrt(1 - s1 * s1)
+        R1 = 1 / g + x
+        C = (R1 - r * c1, r * s1)                      # centre of the orbit; entrance frame: e = (1,0) radial, t = (0,1) tangential
+        e = (mp.cos(th), mp.sin(th))
+        t = (-mp.sin(th), mp.cos(th))
+        eC = e[0] * C[0] + e[1] * C[1]
+        D = eC * eC - (C[0] ** 2 + C[1] ** 2) + r * r
+        if D <= 0:
+            continue
+        R2 = eC + mp.sign(g) * mp.sqrt(D)
+        N = ((R2 * e[0] - C[0]) / r, (R2 * e[1] - C[1]) / r)       # outward normal of the orbit at the exit point = direction rotated by -90 degrees
+        d2 = (-N[1], N[0])
+        d1 = (s1, c1)
+        turn = mp.atan2(d1[0] * d2[1] - d1[1] * d2[0], d1[0] * d2[0] + d1[1] * d2[1])
+        if turn * g < 0:
+            turn += 2 * mp.pi * mp.sign(g)
+        arc = r * turn
+        z = -beta * tau
+        z2 = z + beta * L / beta0 - P * arc / n
+        exp = [R2 - 1 / g, n * (d2[0] * e[0] + d2[1] * e[1]), y + py * arc / n, py, -z2 / beta, d]
+        if (d2[0] * t[0] + d2[1] * t[1]) <= 0:
+            continue                                   # particle turns back before the exit face: outside the domain of the formulas
+        for j in range(6):
+            tol = 1e-11 * (abs(float(exp[j])) + float(L) * (2e-3 if j < 4 else 1.0)) + 1e-300
+            if not abs(out[i][j] - float(exp[j])) <= tol:
+                return {"what": "Bmad-X bend body is not the exact motion in a uniform field", "particle": i, "coordinate": j,
+                        "observed": out[i][j], "expected": float(exp[j]), "body_only_spec": q}
+    return None
+
+
+F70_INPUT = {"spec": {"cls": "Dipole", "kw": {"length": 1.0, "angle": -4.0}}, "E0": 1.0e8, "particles": [[0.0, 0.0, 0.0, 0.0, 0.0, 0.0, 1.0]]}
+
+
+def f70_probe(inp):
+    """the design particle of a bend with angle < -pi must come out at tau = 0 (and at the origin): returns the observed output if it does not"""
+    out = make(inp["spec"]).track(beam(inp["particles"], inp["E0"])).particles[0, :6].tolist()
+    if not all(abs(c) <= 1e-9 for c in out):
+        return out
+    return None
+
+
+def is_f70(spec):
+    return spec["cls"] == "Dipole" and spec["kw"]["angle"] < -math.pi and spec["kw"]["length"] > 0
+
+
 # ------------------------------------------------------------------------------------------------ main
 def run_case(run, case):
     """all implementation-level oracles on one case; returns a failure dict or None"""
     spec, E0, parts = case["spec"], case["E0"], case["particles"]
+    if case.get("bcorr"):      # dipoles of the Coq correspondence: gap_exit/fint_exit may differ from gap/fint (no Jacobian comparison), fringe_at varies
+        out = make(spec).track(beam(parts, E0)).particles
+        if not bool(torch.isfinite(out).all()):
+            return {"what": "non-finite output of Dipole._track_bmadx", "observed": out.tolist()}
+        return uniform_field_oracle(spec, E0, parts)
     if case.get("qcorr"):      # misaligned quadrupoles of the Coq correspondence: the design orbit is not the axis, no Jacobian comparison
         out = make(spec).track(beam(parts, E0)).particles
         if not bool(torch.isfinite(out).all()):
@@ -406,6 +480,8 @@ def run_case(run, case):
         return straight_line_oracle(spec, E0, parts, out)
     if spec["cls"] == "Quadrupole":
         return onaxis_oracle(spec, E0, parts) or chromatic_oracle(spec, E0, parts)
+    if spec["cls"] == "Dipole":
+        return uniform_field_oracle(spec, E0, parts)
     return None
 
 
@@ -471,6 +547,10 @@ def main(tier, replay=None):
     if not ok_tac and proof_ok:
         proof_ok, run.proof_problem = False, f"coq build of Bmadx/QuadXTac.v failed: {log_tac[-1200:]}"
         run.notes.append(run.proof_problem)
+    ok_tac, log_tac = common.coq_build("theories/Bmadx/BendXTac.vo")     # the tactic library of the dipole goals
+    if not ok_tac and proof_ok:
+        proof_ok, run.proof_problem = False, f"coq build of Bmadx/BendXTac.v failed: {log_tac[-1200:]}"
+        run.notes.append(run.proof_problem)
     n = 240 if thorough else 36
     goals, owner, cases, bad = [], [], [], []
     for k in range(n):
@@ -531,20 +611,60 @@ def main(tier, replay=None):
         run.cov["traces_validated_against_impl"] += 1
         if k < 4:
             run.sample({"case": qc, "observed": out})
+    # ---- Bmad-X dipole vs the Coq model Bmadx/BendX.v (all six coordinates), plus the uniform-field oracle on the same inputs
+    bgoals, bowner, b_edge = [], [], 0
+    for k in range(64 if thorough else 8):
+        bc = gen_bcase(run.rng, k + (run.seed % 24 if isinstance(run.seed, int) else 0))
+        bc["bcorr"] = True
+        run.add_case(bc, True)
+        run.count("bend_correspondence")
+        kw = bc["spec"]["kw"]
+        run.count("bendc_angle_" + ("large" if abs(kw["angle"]) > 1.5 else "small") + ("_neg" if kw["angle"] < 0 else "_pos"))
+        run.count("bendc_fringe_at_" + kw["fringe_at"])
+        run.count("bendc_tilted" if kw["tilt"] != 0 else "bendc_untilted")
+        run.count("bendc_gap_exit_differs" if kw["gap_exit"] != kw["gap"] or kw["fringe_integral_exit"] != kw["fringe_integral"] else "bendc_gap_exit_same")
+        out = None
+        try:
+            f = run_case(run, bc)
+            o = make(bc["spec"]).track(beam(bc["particles"], bc["E0"]))
+            out, e_out = o.particles.tolist(), float(o.energy)
+        except Exception as ex:  # an exception of the tracking code on a valid input is an observation: the model predicts finite values
+            f = {"what": "exception: " + repr(ex)[:300]}
+        if f:
+            bad.append({"case": bc, "failure": f})
+        if out is None or not all(math.isfinite(c) for row in out for c in row) or not math.isfinite(e_out):
+            continue
+        gs, skipped = bend_goals(bc, out, e_out)
+        for g_ in gs[1:]:
+            run.count("bendc_branch_" + g_[1].replace("bendx_goal ", "").rstrip(".").replace(" ", "_"))
+        b_edge += skipped
+        bgoals += gs
+        bowner += [dict(bc, observed=out, observed_energy=e_out)] * len(gs)
+        run.cov["traces_validated_against_impl"] += 1
+        if k < 3:
+            run.sample({"case": bc, "observed": out})
     from concurrent.futures import ThreadPoolExecutor
-    with ThreadPoolExecutor(max_workers=2) as ex:
+    with ThreadPoolExecutor(max_workers=3) as ex:
         fut_d = ex.submit(common.run_real_goals, PID, "drift", PRE, goals, 20)
         fut_q = ex.submit(common.run_real_goals, PID, "quad", PRE_Q, qgoals, max(2, -(-len(qgoals) // 16)))
+        fut_b = ex.submit(common.run_real_goals, PID, "bend", PRE_B, bgoals, 2 if not thorough else 4)
         failing, errs = fut_d.result()
         qfailing, qerrs = fut_q.result()
-    run.cov["interval_goals"] = len(goals) + len(qgoals)
+        bfailing, berrs = fut_b.result()
+    run.cov["interval_goals"] = len(goals) + len(qgoals) + len(bgoals)
+    run.cov["bend_goals"] = len(bgoals)
+    run.cov["bend_particles_on_branch_edge_skipped"] = b_edge
     run.cov["quad_goals"] = len(qgoals)
     run.cov["quad_particles_on_branch_edge_skipped"] = n_edge
     run.cov["tested_only"] = ["Quadrupole Bmad-X with the coded eps = 2^-52: flow law / num_steps independence (1e-10) and full 6x6 Jacobian = transfer_map (1e-9) on the "
                               "implementation (Coq proves them for eps := 0, the transverse block, R56 and the determinant defect eps*sx^2 of the coded block)",
-                              "Dipole Bmad-X (fringe + body): Jacobian = transfer_map (1e-9), two pieces = whole (1e-10) -- not modelled in Coq",
+                              "Dipole Bmad-X: full 6x6 Jacobian of fringe + body + tilt = transfer_map (autograd, 1e-9) and two pieces = whole (1e-10) on the implementation "
+                              "(Coq proves the fringe matrices, the exact uniform-field geometry of the body, the closed design orbit and c1 = c2; the body's "
+                              "Jacobian and the flow law are consequences not spelled out as Coq theorems)",
+                              "Dipole body vs an independent 40-digit uniform-field computation (1e-11) on the implementation",
                               "full 6x6 autograd Jacobian of Drift(bmadx) vs transfer_map (Coq proves the two non-trivial entries)",
                               "TDC(V=0) vs Drift(bmadx) on the implementation (Coq proves it for the model of the kick)"]
+    bad = [b for b in bad if not (is_f70(b["case"]["spec"]) and common.known_signature_match(PID, lambda f_: f_.get("id") == "F70"))]
     if bad:
         b = bad[0]
         run.violation({"kind": "oracle", "case": b["case"], "failure": b["failure"], "n_failing_cases": len(bad)})
@@ -556,8 +676,27 @@ def main(tier, replay=None):
         i = qfailing[0]
         run.violation({"kind": "correspondence", "broken": "Coq model Bmadx/QuadX.v (quad_bmadx_track) disagrees with Quadrupole._track_bmadx",
                        "case": qowner[i], "goal": qgoals[i][0][:900], "coq_error": qerrs.get(i, "")[-300:], "n_failing_goals": len(qfailing)}, no_input=True)
+    elif bfailing:
+        i = bfailing[0]
+        run.violation({"kind": "correspondence", "broken": "Coq model Bmadx/BendX.v (bend_bmadx_track) disagrees with Dipole._track_bmadx",
+                       "case": bowner[i], "goal": bgoals[i][0][:900], "coq_error": berrs.get(i, "")[-300:], "n_failing_goals": len(bfailing)}, no_input=True)
     elif not proof_ok:
         run.violation({"kind": "proof", "broken": run.proof_problem}, no_input=True)
+    # ---- known finding F70 (bend angle < -pi: theta_p off by 4 pi, wrong path length): replay the stored input
+    for kf in common.load_known_findings(PID):
+        if kf.get("id") != "F70":
+            continue
+        try:
+            obs = f70_probe(kf.get("replay", F70_INPUT))
+        except Exception as ex:
+            obs = "exception: " + repr(ex)[:200]
+        if obs is None:
+            run.cov["known_findings_not_reproduced"].append("F70")
+        elif kf.get("status") == "known":
+            run.known(f"Bmad-X Dipole with angle < -pi displaces the design particle longitudinally: angle={kf.get('replay', F70_INPUT)['spec']['kw']['angle']} observed={obs} [F70]",
+                      replay=kf.get("replay", F70_INPUT))
+        else:
+            run.violation({"kind": "oracle", "case": kf.get("replay", F70_INPUT), "failure": {"what": "finding F70 (listed as fixed) fails again", "observed": obs}})
     return run.finish("proof")
 
 
